@@ -45,6 +45,8 @@ func checkC01(r *Report, p *Program) {
 	r17_1(r, p)
 	// the rollout gate adds no wait the property does not state (else the rollout never converges) — shared with C07
 	r07_3(r, p)
+	// one content write per child per sync (shared with C06)
+	oneWritePerChild(r, p, "R01.6")
 }
 
 func r01_children(r *Report, p *Program) {
